@@ -7,6 +7,7 @@ import (
 	"fmt"
 	"io"
 	"math/rand"
+	"sort"
 	"strings"
 	"time"
 
@@ -184,9 +185,9 @@ func c05Run(c fw.Case, env *fw.Env) fw.Result {
 	case "hygiene":
 		// every packet a reconnecting client writes in faulty runs (retransmissions with DUP, PUBREL, PUBACK/PUBREC/
 		// PUBCOMP for inbound traffic, re-subscriptions, DISCONNECT) decodes strictly; the stream can always be framed
-		wl := []string{"mixed", "preset", "in1", "subs5", "q2mix", "outage"}
+		wl := []string{"mixed", "preset", "in1", "subs5", "q2mix", "outage", "subs1", "q2sub"}
 		for i := 0; i < p.N; i++ {
-			rp := retryParams{W: wl[(i+p.Part)%len(wl)], Cfg: scen.BrokerCfg{Method: []string{"A", "B"}[i%2], Session: []string{"keep", "lose"}[(i/2)%2], Echo: i%3 == 0}, Always: i%5 == 0, Chunk: []int{0, 1, 3}[i%3], Mode: "random", N: 1}
+			rp := retryParams{W: wl[(i+p.Part)%len(wl)], Cfg: scen.BrokerCfg{Method: []string{"A", "B"}[i%2], Session: []string{"keep", "lose"}[(i/2)%2], Echo: i%3 == 0, Grant: []string{"", "low"}[(i/4)%2]}, Always: i%5 == 0, Chunk: []int{0, 1, 3}[i%3], Client: []string{"", "", "retry"}[i%3], Mode: "random", N: 1}
 			for _, sc := range rp.scenarios(rng) {
 				sc := sc
 				run := scen.Exec(&sc)
@@ -201,6 +202,11 @@ func c05Run(c fw.Case, env *fw.Env) fw.Result {
 						continue // C09's business
 					}
 					return fail("malformed-packet", "%s: %s\nworkload=%s faults=%v", f.Sig, f.Detail, rp.W, sc.Faults)
+				}
+				if d, nchk := fieldFidelity(run); d != "" {
+					return fail("retransmitted-or-restored-packet-differs-from-request", "%s\nworkload=%s cfg=%+v faults=%v", d, rp.W, sc.Cfg, sc.Faults)
+				} else {
+					r.Counters["request_packets_compared_with_the_application_request"] += nchk
 				}
 				n := 0
 				for _, e := range a.Ev {
@@ -701,4 +707,69 @@ func init() {
 		Gen: c05Gen,
 		Run: c05Run,
 	})
+}
+
+// fieldFidelity compares every PUBLISH / SUBSCRIBE / UNSUBSCRIBE the client wrote in a run - first transmissions,
+// retransmissions and re-subscriptions alike - with what the application asked for.
+func fieldFidelity(run *scen.Run) (detail string, checked int) {
+	pubs := map[string]scen.Step{}
+	subEntries := map[string]bool{}
+	unsubs := map[string]bool{}
+	run.Tr.Mu.Lock()
+	for _, s := range run.Subm {
+		switch s.Step.Op {
+		case "pub":
+			pubs[s.Step.Tag] = s.Step
+		case "sub":
+			for _, x := range s.Step.Subs {
+				subEntries[fmt.Sprintf("%s@%d", x.F, x.Q)] = true
+			}
+		case "unsub":
+			unsubs[fmt.Sprint(s.Step.Filters)] = true
+		}
+	}
+	run.Tr.Mu.Unlock()
+	// (DUP is the library's to set: 0 on a first transmission whatever the caller put there - C12 judges it)
+	for _, e := range run.Tr.Snapshot() {
+		if e.Kind != memnet.KWrite || e.Pkt == nil {
+			continue
+		}
+		p := e.Pkt
+		switch p.Type {
+		case mqttref.PUBLISH:
+			st, ok := pubs[string(p.Payload)]
+			if !ok {
+				return fmt.Sprintf("%v: a PUBLISH nobody asked for", e), checked
+			}
+			checked++
+			if p.Topic != "t/"+st.Tag || p.QoS != st.QoS || p.Retain != st.Retain {
+				return fmt.Sprintf("%v (connection %d): the application asked for topic %q QoS %d retain=%v", e, e.Conn, "t/"+st.Tag, st.QoS, st.Retain), checked
+			}
+			if st.ID != 0 && st.QoS > 0 && p.ID != st.ID {
+				return fmt.Sprintf("%v: the application set identifier %d", e, st.ID), checked
+			}
+		case mqttref.SUBSCRIBE:
+			for _, x := range p.Subs {
+				checked++
+				if !subEntries[fmt.Sprintf("%s@%d", x.Filter, x.QoS)] {
+					return fmt.Sprintf("%v (connection %d): entry %s@%d was never requested by the application (requested: %v)", e, e.Conn, x.Filter, x.QoS, keysOf(subEntries)), checked
+				}
+			}
+		case mqttref.UNSUBSCRIBE:
+			checked++
+			if !unsubs[fmt.Sprint(p.Filters)] {
+				return fmt.Sprintf("%v: no Unsubscribe call with these filters", e), checked
+			}
+		}
+	}
+	return "", checked
+}
+
+func keysOf(m map[string]bool) []string {
+	var out []string
+	for k := range m {
+		out = append(out, k)
+	}
+	sort.Strings(out)
+	return out
 }
